@@ -45,6 +45,22 @@ func CopyFile(srcPath, destPath string) (int64, error) {
 // MoveFile moves the specified file from srcPath to destPath.
 // If os.Rename() fails, try to osutil.CopyFile() and then os.Remove().
 func MoveFile(srcPath, destPath string) (err error) {
+	// renaming a symbolic link over the very file it points to would leave a link to itself
+	// and no name for the content
+	if srcInfo, err := os.Lstat(srcPath); err != nil {
+		return err
+	} else if srcInfo.Mode()&fs.ModeSymlink != 0 {
+		target, terr := os.Stat(srcPath)
+		destInfo, derr := os.Stat(destPath)
+		if terr == nil && derr == nil && os.SameFile(target, destInfo) {
+			return errors.New("osutil: MoveFile: " + srcPath + " is a symbolic link to " + destPath)
+		} else if terr != nil && !errors.Is(terr, fs.ErrNotExist) {
+			return terr
+		} else if derr != nil && !errors.Is(derr, fs.ErrNotExist) {
+			return derr
+		}
+	}
+
 	if err = os.Rename(srcPath, destPath); err == nil {
 		return nil
 	}
